@@ -1,8 +1,8 @@
 #!/bin/bash
-# usage: tools/seed_batch.sh <ids...>   e.g. C07-A C07-B ; evaluates /verif/seeded/<id>/ with owner + related checks
+# usage: [SEED_EVAL_FLAGS=--no-tests] tools/seed_batch.sh <ids...>   e.g. C07-A C07-B ; evaluates /verif/seeded/<id>/ with owner + related checks
 declare -A REL=( [C01]="C01" [C02]="C02,C03" [C03]="C03,C04" [C04]="C04,C03" [C05]="C05,C09" [C06]="C06,C07" [C07]="C07,C06" [C08]="C08,C14" [C09]="C09,C08" [C10]="C10" [C11]="C11,C12" [C12]="C12,C11" [C13]="C13,C10" [C14]="C14,C15" [C15]="C15" [C16]="C16" [C17]="C17" [C18]="C18" [C19]="C19" [C20]="C20" )
 for id in "$@"; do
   prop="${id%%-*}"
   echo "=== $id (checks ${REL[$prop]})"
-  python3 /verif/tools/seed_eval.py /verif/seeded/$id --checks "${REL[$prop]}" 2>&1 | tail -4 | cut -c1-1500
+  python3 /verif/tools/seed_eval.py /verif/seeded/$id --checks "${REL[$prop]}" $SEED_EVAL_FLAGS 2>&1 | tail -4 | cut -c1-1500
 done
